@@ -58,6 +58,7 @@ template <class T>
 static Vec2<T> * Vec2_object_constructor1(const object &obj)
 {
     Vec2<T> w;
+    extract<Vec2<T> >       e0(obj);
     extract<Vec2<int> >     e1(obj);
     extract<Vec2<float> >   e2(obj);
     extract<Vec2<double> >  e3(obj);
@@ -65,7 +66,8 @@ static Vec2<T> * Vec2_object_constructor1(const object &obj)
     extract<double>         e5(obj);
     extract<list>           e6(obj);
     
-    if(e1.check()){ w = e1(); }
+    if(e0.check())      { w = e0(); }
+    else if(e1.check()) { w = e1(); }
     else if(e2.check()) { w = e2(); }
     else if(e3.check()) { w = e3(); }
     else if(e4.check())
@@ -783,6 +785,7 @@ template <class T>
 static bool
 equalWithAbsErrorObj(const Vec2<T> &v, const object &obj1, const object &obj2)
 {    
+    extract<Vec2<T> >       e0(obj1);
     extract<Vec2<int> >    e1(obj1);
     extract<Vec2<float> >  e2(obj1);
     extract<Vec2<double> > e3(obj1);
@@ -791,7 +794,8 @@ equalWithAbsErrorObj(const Vec2<T> &v, const object &obj1, const object &obj2)
     extract<double>        e5(obj2);
     
     Vec2<T> w;
-    if(e1.check())      { w = e1(); }
+    if(e0.check())      { w = e0(); }
+    else if(e1.check()) { w = e1(); }
     else if(e2.check()) { w = e2(); }
     else if(e3.check()) { w = e3(); }
     else if(e4.check())
@@ -817,6 +821,7 @@ template <class T>
 static bool
 equalWithRelErrorObj(const Vec2<T> &v, const object &obj1, const object &obj2)
 {    
+    extract<Vec2<T> >       e0(obj1);
     extract<Vec2<int> >    e1(obj1);
     extract<Vec2<float> >  e2(obj1);
     extract<Vec2<double> > e3(obj1);
@@ -825,7 +830,8 @@ equalWithRelErrorObj(const Vec2<T> &v, const object &obj1, const object &obj2)
     extract<double>        e5(obj2);
     
     Vec2<T> w;
-    if(e1.check())      { w = e1(); }
+    if(e0.check())      { w = e0(); }
+    else if(e1.check()) { w = e1(); }
     else if(e2.check()) { w = e2(); }
     else if(e3.check()) { w = e3(); }
     else if(e4.check())
